@@ -224,6 +224,62 @@ def decoded_cases():
                     yield {'leg': 'decoded', 'kind': kind, 'how': how, 'hook': hook, 'groups': groups}
 
 
+def in_system_case(case):
+    """Listings read from INSIDE a system's turn: read, let an agent join / leave, read again - within one execute()."""
+    from mc.engine.seams import reset_library
+    reset_library()
+    m = new_model(seed=1)
+    mk, pos = KINDS[case['kind']]
+    if mk is not None:
+        m.environment = mk(m)
+    env = m.environment
+    agents = []
+    for i in range(4):
+        a = Core.Agent(f'g{i}', m)
+        a.add_component(X(a, m))
+        if i % 2:
+            a.add_component(Y(a, m))
+        agents.append(a)
+    for a in agents[:3]:
+        env.add_agent(a, *pos)
+    problems = []
+
+    def listed(T):
+        got = m.systems[T]
+        return [c.agent.id for c in got] if got else None
+
+    class Census(Core.System):
+        def execute(self):
+            res = [a.id for a in env]
+            for step in case['steps']:
+                for T in (X, Y):
+                    want = [a.id for a in env if T in a.components] or None
+                    if listed(T) != want:
+                        problems.append((self.model.systems.timestep, step, T.__name__, want, listed(T)))
+                if step == 'join':
+                    env.add_agent(agents[3], *pos)
+                elif step == 'leave':
+                    env.remove_agent('g1')
+                elif step == 'rejoin':
+                    env.add_agent(agents[1], *pos)
+                elif step == 'leave3':
+                    env.remove_agent('g3')
+    m.systems.add_system(Census('census', m))
+    m.execute()
+    if problems:
+        t, step, T, want, got = problems[0]
+        raise Violation(f'listing of {T} read inside a system\'s turn, before its step {step!r} of {case["steps"]} ({case["kind"]} '
+                        f'world)', expected=want, observed=got)
+    return len(case['steps'])
+
+
+def in_system_cases():
+    for kind in ('plain', 'grid'):
+        for steps in (['join', 'read'], ['leave', 'read'], ['leave', 'rejoin', 'read'], ['join', 'leave', 'leave3', 'read'],
+                      ['read', 'join', 'read', 'leave', 'read']):
+            yield {'leg': 'in_system', 'kind': kind, 'steps': steps}
+
+
 def handover_case(case):
     """An environment built for one model is handed over to another (set_model + set_environment): from then on its
     agents' components are listed by the new model only."""
@@ -307,8 +363,13 @@ def scale_case(case):
     def check(what):
         for T, cls in types.items():
             exp = [(i, T) for i in res if carries[T](i)]
+            def pool_by_index():
+                try:
+                    return m.systems.component_pools[cls] or None      # indexing, as the register_component docstring shows
+                except KeyError:
+                    return None
             for how, got in (('systems[T]', m.systems[cls]), ('get_components(T)', m.systems.get_components(cls)),
-                             ('component_pools', m.systems.component_pools.get(cls) or None)):
+                             ('component_pools[T]', pool_by_index()), ('systems[T] after the pool was indexed', m.systems[cls])):
                 got_n = None if got is None else [comps.get(id(c), ('?', type(c).__name__)) for c in got]
                 if got_n != (exp or None):
                     raise Violation(f'{what}: listing of {T} differs from the residents\' components in joining order '
@@ -809,6 +870,13 @@ def run(ctx):
             except Violation as v:
                 ctx.report(case, v)
                 return
+    for case in in_system_cases():
+        ctx.traces += 1
+        try:
+            ctx.transitions += hbfs._guard(in_system_case, case)
+        except Violation as v:
+            ctx.report(case, v)
+            return
     nd = 0
     for case in decoded_cases():
         ctx.traces += 1
@@ -857,6 +925,9 @@ def run(ctx):
 def replay(case):
     if case['leg'] == 'decoded':
         hbfs._guard(decoded_case, case)
+        return
+    if case['leg'] == 'in_system':
+        hbfs._guard(in_system_case, case)
         return
     if case['leg'] == 'handover':
         hbfs._guard(handover_case, case)
